@@ -305,6 +305,11 @@ def run(prop, seed, budget, ctx):
                                              why=["older-dialect-and-2020-12-schema-disagree-on-an-instance"]))
             else:
                 evaluations += 1; hist[ver] += 1
+    if prop in ("C06", "C07"):
+        import rec_conv
+        rf, rn, rd, rh = rec_conv.run_part(prop, seed, budget)
+        failures += rf; evaluations += rn; distinct |= rd
+        for k_, v_ in rh.items(): hist[k_] += v_
     if prop == "C07":
         from schema_conv import run_conv_schema
         cf, cn = run_conv_schema(rnd, seed, budget, hist, distinct, build_module); failures += cf; evaluations += cn
@@ -385,6 +390,8 @@ def replay(prop, case, ctx):
     from apischema import deserialize, serialize, ValidationError, settings
     from apischema.json_schema import deserialization_schema, serialization_schema, JsonSchemaVersion
     from common import proto_py
+    if case.get("part") == "recursive-conversions":
+        return {k: v for k, v in case.items() if k not in ("kind", "k_ok", "features")}
     if case.get("part") == "converted":
         return {"type": case["py"], "class": case.get("class_src"), "conversion": case["conversion"], "mode": case["mode"], "value": case["value"], "serialized": case["serialized"],
                 "schema": case["real"], "recorded": case["why"]}
